@@ -63,16 +63,17 @@ Print Assumptions C16_json_int_key_refuted.
     [fp] is the formatted payload: the payload is formatted ONCE, as part of the step
     input, by the same [format_value] that C08/C09 are about. *)
 
-(** with a key: the fetched value, equal to the formatted payload, is stored at the key *)
+(** with a key: the fetched value, equal to the formatted payload, is stored at the key -
+    for ANY representable document, a scalar root (int, bool, None, float) included
+    (since /repo bde1ca1; before it the closing log line raised TypeError on those) *)
 Theorem C16_write_fetch : forall f c (dom : val -> Prop) (eqv : val -> val -> Prop),
-  (forall a b, eqv a b -> has_len a = has_len b /\ is_mapping a = is_mapping b) ->
   (forall v, dom v -> exists s v', c_print c v = Ok s /\ c_parse c s = Ok v' /\ eqv v' v) ->
   forall ctx1 ctx2 files p_raw pl_raw p2_raw k_raw path fp key,
     sget (write_key f) ctx1 = Some (VDict [(VStr "path", p_raw); (VStr "payload", pl_raw)]) ->
     format_value FUEL1 ctx1 p_raw = Ok (VStr path) ->
     format_value FUEL1 ctx1 pl_raw = Ok fp ->
     (f = FToml -> py_truth fp = true) ->
-    dom fp -> has_len fp = true ->
+    dom fp ->
     sget (fetch_key f) ctx2 = Some (VDict [(VStr "path", p2_raw); (VStr "key", k_raw)]) ->
     format_value FUEL1 ctx2 p2_raw = Ok (VStr path) ->
     format_value FUEL1 ctx2 k_raw = Ok (VStr key) -> key <> EmptyString ->
@@ -83,23 +84,9 @@ Theorem C16_write_fetch : forall f c (dom : val -> Prop) (eqv : val -> val -> Pr
 Proof. exact write_fetch_key. Qed.
 Print Assumptions C16_write_fetch.
 
-(** The statement WITHOUT [has_len fp = true] is false of the code as it is: a document
-    whose root is an int / bool / None / float is written fine, but fetchjson / fetchyaml
-    end with logger.info(..., len(payload)) and raise TypeError.
-      full statement:  forall ... (as above, minus has_len) ..., fetch_step ... = Ok ...
-    Witness: payload 5. *)
-Theorem C16_write_fetch_scalar_root_refuted :
-  exists ctx files,
-    json_representable (VInt 5) /\
-    write_step FJson json_codec ctx [] = Ok files /\
-    fs_read "/T/n.json" files = Some "5" /\
-    fetch_step FJson json_codec ctx files = Err "TypeError" "object of type 'int' has no len()".
-Proof. exact fetch_scalar_root_fails. Qed.
-Print Assumptions C16_write_fetch_scalar_root_refuted.
-
 (** without a key: a mapping payload is merged into the context root *)
 Theorem C16_write_fetch_root : forall f c (dom : val -> Prop) (eqv : val -> val -> Prop),
-  (forall a b, eqv a b -> has_len a = has_len b /\ is_mapping a = is_mapping b) ->
+  (forall a b, eqv a b -> is_mapping a = is_mapping b) ->
   (forall v, dom v -> exists s v', c_print c v = Ok s /\ c_parse c s = Ok v' /\ eqv v' v) ->
   forall ctx1 ctx2 files p_raw pl_raw p2_raw path fp,
     sget (write_key f) ctx1 = Some (VDict [(VStr "path", p_raw); (VStr "payload", pl_raw)]) ->
@@ -118,7 +105,7 @@ Print Assumptions C16_write_fetch_root.
 
 (** the matching file context parser on the written file *)
 Theorem C16_write_file_parser : forall f c (dom : val -> Prop) (eqv : val -> val -> Prop),
-  (forall a b, eqv a b -> has_len a = has_len b /\ is_mapping a = is_mapping b) ->
+  (forall a b, eqv a b -> is_mapping a = is_mapping b) ->
   (forall v, dom v -> exists s v', c_print c v = Ok s /\ c_parse c s = Ok v' /\ eqv v' v) ->
   forall ctx1 files p_raw pl_raw path fp,
     sget (write_key f) ctx1 = Some (VDict [(VStr "path", p_raw); (VStr "payload", pl_raw)]) ->
@@ -139,7 +126,7 @@ Theorem C16_write_fetch_json :
     sget "fileWriteJson" ctx1 = Some (VDict [(VStr "path", p_raw); (VStr "payload", pl_raw)]) ->
     format_value FUEL1 ctx1 p_raw = Ok (VStr path) ->
     format_value FUEL1 ctx1 pl_raw = Ok fp ->
-    json_representable fp -> has_len fp = true ->
+    json_representable fp ->
     sget "fetchJson" ctx2 = Some (VDict [(VStr "path", p2_raw); (VStr "key", k_raw)]) ->
     format_value FUEL1 ctx2 p2_raw = Ok (VStr path) ->
     format_value FUEL1 ctx2 k_raw = Ok (VStr key) -> key <> EmptyString ->
@@ -149,7 +136,7 @@ Theorem C16_write_fetch_json :
       v' = fp.
 Proof.
   intros ctx1 ctx2 files p_raw pl_raw p2_raw k_raw path fp key Hw Hp Hpl.
-  exact (write_fetch_key FJson json_codec json_representable eq eq_shape json_law
+  exact (write_fetch_key FJson json_codec json_representable eq json_law
            ctx1 ctx2 files p_raw pl_raw p2_raw k_raw path fp key Hw Hp Hpl
            (fun H => json_not_toml H _)).
 Qed.
@@ -186,7 +173,7 @@ Theorem C16_write_fetch_yaml : forall c,
     sget "fileWriteYaml" ctx1 = Some (VDict [(VStr "path", p_raw); (VStr "payload", pl_raw)]) ->
     format_value FUEL1 ctx1 p_raw = Ok (VStr path) ->
     format_value FUEL1 ctx1 pl_raw = Ok fp ->
-    yaml_representable fp = true -> has_len fp = true ->
+    yaml_representable fp = true ->
     sget "fetchYaml" ctx2 = Some (VDict [(VStr "path", p2_raw); (VStr "key", k_raw)]) ->
     format_value FUEL1 ctx2 p2_raw = Ok (VStr path) ->
     format_value FUEL1 ctx2 k_raw = Ok (VStr key) -> key <> EmptyString ->
@@ -196,7 +183,7 @@ Theorem C16_write_fetch_yaml : forall c,
       v' = fp.
 Proof.
   intros c law ctx1 ctx2 files p_raw pl_raw p2_raw k_raw path fp key Hw Hp Hpl.
-  exact (write_fetch_key FYaml c (fun v => yaml_representable v = true) eq eq_shape law
+  exact (write_fetch_key FYaml c (fun v => yaml_representable v = true) eq law
            ctx1 ctx2 files p_raw pl_raw p2_raw k_raw path fp key Hw Hp Hpl
            (fun H => yaml_not_toml H _)).
 Qed.
@@ -210,7 +197,7 @@ Theorem C16_write_fetch_toml : forall c,
     format_value FUEL1 ctx1 p_raw = Ok (VStr path) ->
     format_value FUEL1 ctx1 pl_raw = Ok fp ->
     py_truth fp = true ->
-    toml_representable fp = true -> has_len fp = true ->
+    toml_representable fp = true ->
     sget "fetchToml" ctx2 = Some (VDict [(VStr "path", p2_raw); (VStr "key", k_raw)]) ->
     format_value FUEL1 ctx2 p2_raw = Ok (VStr path) ->
     format_value FUEL1 ctx2 k_raw = Ok (VStr key) -> key <> EmptyString ->
@@ -221,7 +208,7 @@ Theorem C16_write_fetch_toml : forall c,
 Proof.
   intros c law ctx1 ctx2 files p_raw pl_raw p2_raw k_raw path fp key Hw Hp Hpl Ht.
   exact (write_fetch_key FToml c (fun v => toml_representable v = true)
-           (fun a b => val_eqv a b = true) eqv_shape_bool law
+           (fun a b => val_eqv a b = true) law
            ctx1 ctx2 files p_raw pl_raw p2_raw k_raw path fp key Hw Hp Hpl (fun _ => Ht)).
 Qed.
 Print Assumptions C16_write_fetch_toml.
@@ -326,6 +313,15 @@ Proof.
            ++ """t"": ""true""" ++ nl 0 ++ "}")].
   vm_compute. repeat split.
 Qed.
+
+(** the former counterexample (payload 5, see corpus/C16/03-json-scalar-root.json) *)
+Example C16_write_fetch_scalar_root_nonvacuous :
+  let ctx := [(VStr "fileWriteJson", VDict [(VStr "path", VStr "/T/n.json"); (VStr "payload", VInt 5)]);
+              (VStr "fetchJson", VDict [(VStr "path", VStr "/T/n.json"); (VStr "key", VStr "out")])] in
+  json_representable (VInt 5) /\
+  write_step FJson json_codec ctx [] = Ok [("/T/n.json", "5")] /\
+  fetch_step FJson json_codec ctx [("/T/n.json", "5")] = Ok (ctx ++ [(VStr "out", VInt 5)])%list.
+Proof. vm_compute. repeat split. Qed.
 
 Example C16_fileformat_nonvacuous :
   fileformat_obj json_codec [(VStr "n", VInt 3); (VStr "s", VStr "v")]
